@@ -150,7 +150,7 @@ def checkC03 (r : RealOut) : List Finding :=
   (hooks r.out).filterMap fun h =>
     match argsMirrorSite r.cfg h with
     | some c => some ⟨"C03", "argsMirror/" ++ c, shortN r h⟩
-    | none => none
+    | none => if applyArgsListed h then none else some ⟨"C03", "argsMirror/apply-arguments-passed-as-one-operand", shortN r h⟩
 
 def checkC04 (r : RealOut) : List Finding :=
   if r.status == "Cancelled" || !NoNs r.inp then [] else
@@ -170,7 +170,9 @@ def checkC06 (r : RealOut) : List Finding :=
   (if !refused && r.status == "Cancelled" then [⟨"C06", "refused-without-reserved-prefix", ""⟩] else []) ++
   (if r.status == "Modified" then (scopeIssues r.out).map fun i =>
      ⟨"C06", "scope/" ++ i.cls ++ (if hasLeakyChain r.cfg r.inp && i.cls == "temp-not-declared-in-its-block" then "/under-leaky-optional-chain" else ""),
-      s!"temp {i.temp} block@{i.sp}"⟩ else [])
+      s!"temp {i.temp} block@{i.sp}"⟩ else []) ++
+  (if r.status == "Modified" then (reassignedWhileLive r.out).map fun i =>
+     ⟨"C06", "scope/" ++ i.cls, s!"temp {i.temp} sequence@{i.sp}"⟩ else [])
 
 def checkC07 (r : RealOut) : List Finding :=
   if r.status != "Modified" then [] else
@@ -190,6 +192,23 @@ def checkC12 (r : RealOut) : List Finding :=
   (if r.status == "Modified" && (r.content.splitOn "\n//# sourceMappingURL=data:application/json;base64,").length != 2 then
      [⟨"C12", "modified-without-single-inline-map-trailer", ""⟩] else [])
 
+/-- hook sites named like the `+` operator whose position is that of an input node selected by `sel` -/
+def plusSitesAt (r : RealOut) (sel : Node → Option Span) : Nat :=
+  let spans := (Node.collect (fun k => (sel k).isSome) r.inp).filterMap sel
+  ((hookSites r.out).filter fun s => s.1 == r.cfg.plusName && spans.contains s.2).length
+
+/-- the `+` and `+=` entries of the debug breakdown count the hooks standing for `+` and for `+=`
+    operations of the input (a hook carries the position of the operation it wraps) -/
+def checkC15Tags (r : RealOut) (dbg : List (String × Nat)) : List Finding :=
+  if !r.cfg.plusEnabled || r.cfg.methods.any (fun m => m.src == Generated.addTag || m.src == Generated.addAssignTag) then [] else
+  let get := fun (t : String) => ((dbg.filter fun p => p.1 == t).map (·.2)).sum
+  let plus := plusSitesAt r fun k => match k with | .bin op _ _ sp => if op == "+" then some sp else none | _ => none
+  let plusEq := plusSitesAt r fun k => match k with | .assign op _ _ sp => if op == "+=" then some sp else none | _ => none
+  (if get Generated.addTag != plus then
+     [⟨"C15", "tag-count-differs-from-hooks-of-that-operation", s!"{Generated.addTag}: reported {get Generated.addTag}, hooks at + operations {plus}"⟩] else []) ++
+  (if get Generated.addAssignTag != plusEq then
+     [⟨"C15", "tag-count-differs-from-hooks-of-that-operation", s!"{Generated.addAssignTag}: reported {get Generated.addAssignTag}, hooks at += operations {plusEq}"⟩] else [])
+
 def checkC15 (r : RealOut) : List Finding :=
   if r.status == "Cancelled" || !NoNs r.inp then [] else
   let names := hookNames r.out
@@ -198,7 +217,8 @@ def checkC15 (r : RealOut) : List Finding :=
     [⟨"C15", "count-differs-from-hook-sites", s!"reported {r.metricsCount}, hook sites {names.length}"⟩] else []) ++
   (match r.cfg.verbosity, r.metricsDebug with
    | .debug, some dbg =>
-     if debugPartitions r.cfg dbg names then [] else [⟨"C15", "debug-breakdown-does-not-partition", toString dbg ++ " vs " ++ toString names⟩]
+     (if debugPartitions r.cfg dbg names then [] else [⟨"C15", "debug-breakdown-does-not-partition", toString dbg ++ " vs " ++ toString names⟩]) ++
+       checkC15Tags r dbg
    | .debug, none => [⟨"C15", "debug-breakdown-missing", ""⟩]
    | _, some _ => [⟨"C15", "debug-breakdown-present-outside-debug", ""⟩]
    | _, none => [])
